@@ -37,6 +37,13 @@ AXIOM_ALLOW = [
 ]
 
 
+# coqchk lists the axioms of every loaded library file (not only those a theorem uses)
+CHK_ALLOW = [
+    r"Reals\.", r"ClassicalDedekindReals\.", r"Logic\.", r"Floats\.", r"Numbers\.Cyclic\.", r"Array\.",
+    r"^Flocq\.", r"^Interval\.", r"^Coquelicot\.", r"^mathcomp\.", r"^Hammer\.",
+]
+
+
 def log(*a):
     print(*a, flush=True)
 
@@ -177,6 +184,30 @@ def audit(prop, cfg, rundir):
             if not any(re.search(p, a) for p in AXIOM_ALLOW):
                 problems.append("theorem %s depends on non-allow-listed axiom %s" % (t, a))
     return names, axmap, problems
+
+
+def coqchk(cfg, rundir):
+    """independent re-check of the property's compiled files (thorough tier). -> (axioms, problems)"""
+    mods = ["LinfaVerif." + pf[:-2].replace("/", ".") for pf in cfg.get("properties_files", [])]
+    if not mods:
+        return [], []
+    rc, out = sh(["coqchk", "-silent", "-o", "-Q", COQ, "LinfaVerif"] + mods, cwd=rundir, timeout=3000)
+    if rc != 0:
+        return [], ["coqchk failed: " + out[-800:]]
+    problems = []
+    m = re.search(r"\* Axioms:(.*?)\n\s*\n\* Constants/Inductives relying on type-in-type:(.*?)\n\s*\n\* Constants/Inductives relying on unsafe \(co\)fixpoints:(.*?)\n\s*\n\* Inductives whose positivity is assumed:(.*?)(?:\n\s*\n|\Z)", out, re.S)
+    if not m:
+        return [], ["coqchk: could not parse summary: " + out[-400:]]
+    axioms = [a.strip() for a in m.group(1).split("\n") if a.strip() and a.strip() != "<none>"]
+    for k, name in ((2, "type-in-type"), (3, "unsafe fixpoints"), (4, "assumed positivity")):
+        if m.group(k).strip() != "<none>":
+            problems.append("coqchk reports %s: %s" % (name, m.group(k).strip()[:300]))
+    for a in axioms:
+        short = a[4:] if a.startswith("Coq.") else a
+        short2 = ".".join(short.split(".")[-2:])
+        if not any(re.search(pat, short) or re.search(pat, short2) for pat in AXIOM_ALLOW + CHK_ALLOW):
+            problems.append("coqchk: non-allow-listed axiom " + a)
+    return axioms, problems
 
 
 def harness_dir():
@@ -323,6 +354,11 @@ def main(argv):
         theorems, axmap, problems = audit(prop, cfg, rundir0)
         infra += problems
 
+    chk_axioms = None
+    if tier == "thorough" and not proof_broken and not infra and not replay:
+        chk_axioms, problems = coqchk(cfg, rundir0)
+        infra += problems
+
     # 3. harness
     runs = cfg.get("harness_runs", [])
     bins = sorted(set(r["bin"] for r in runs))
@@ -446,6 +482,7 @@ def main(argv):
             "oracle_rejections": len(violations),
             "known_findings_hit": {k: v["count"] for k, v in known_hits.items()},
             "proof_obligations_broken": ["%s:%s" % (a, b) for a, b, _ in proof_broken],
+            "coqchk_axioms": chk_axioms if chk_axioms is not None else "coqchk runs in the thorough tier only",
             "explanation": cfg.get("explanation", ""),
             "exhaustive": False,
         },
